@@ -1,4 +1,6 @@
 import OpenFecVerif.Props.C04
+import OpenFecVerif.Props.C03Session
+import OpenFecVerif.Props.C01
 import OpenFecVerif.Proofs.LdpcEnc
 /-!
 # C16 — 2D-parity codec: product-parity structure, sound and complete erasure recovery
@@ -155,6 +157,50 @@ theorem C16_decoder_is_closure {σ : Type} (O : Ops σ) (k r : Nat) (hk : k ≤ 
     subst hH
     have := C04_eq O (k + r) k _ hp.2.1 l hl
     exact ⟨this.1, this.2.2.1, this.2.2.2⟩
+
+theorem wfh_of_wfCheck (n : Nat) (H : List (List Nat)) (h : wfCheck n H = true) : MLComplete.WFH H n := by
+  unfold wfCheck at h
+  rw [List.all_eq_true] at h
+  intro row hrow
+  have := h row hrow
+  simp only [Bool.and_eq_true, List.all_eq_true, decide_eq_true_eq] at this
+  exact ⟨this.2, this.1.1⟩
+
+theorem stairCheck_eq (k : Nat) (H : List (List Nat)) : stairCheck k H = Api.stairCheck k H := rfl
+
+/-- the structure of every accepted 2D configuration, in the form the decoder theorems need -/
+theorem C16_structure (k r : Nat) (hk : k ≤ 16) (hr : r ≤ 24) (H : List (List Nat)) (hH : rows k r = some H) :
+    H.length = r ∧ MLComplete.WFH H (k + r) ∧ Api.stairCheck k H = true := by
+  unfold rows at hH
+  cases hd : dims k r with
+  | none => rw [hd] at hH; cases hH
+  | some p =>
+    obtain ⟨D, L⟩ := p
+    have hp := C16_product k r hk hr D L hd
+    rw [hd] at hH
+    simp only [Option.map_some, Option.some.injEq] at hH
+    subst hH
+    exact ⟨hp.2.2.2.2, wfh_of_wfCheck _ _ hp.2.1, by rw [← stairCheck_eq]; exact hp.2.2.1⟩
+
+/-- **2D parity: `of_finish_decoding` recovers every erasure pattern the checks determine uniquely, and only those** (C03's theorem
+instantiated on every accepted product shape) -/
+theorem C16_finish_ok_iff_determined {σ : Type} (IO : Api.SymIO σ) (s : Api.Session σ) (p : Api.Params) (it : IT.St σ)
+    (hit : s.it = some it) (hcons : s.mlConsumed = false) (hk16 : p.k ≤ 16) (hr24 : p.r ≤ 24) (hH : rows p.k p.r = some s.H)
+    (hk : it.k = p.k) :
+    (Api.ldpcFinish IO s p).1 = Api.Status.ok ↔ MLComplete.SourcesDetermined s.H p.k (p.k + p.r) it.known := by
+  obtain ⟨h1, h2, h3⟩ := C16_structure p.k p.r hk16 hr24 s.H hH
+  exact C03_finish_ok_iff_determined IO s p it hit hcons h2 h3 h1 hk
+
+/-- **2D parity never returns a wrong symbol**: with the encoder's output as the block, whatever is submitted (any subset, order,
+duplicates, either API, with `of_finish_decoding`), every source symbol the decoder session holds is the one that was encoded -/
+theorem C16_roundtrip {V : Type} [AddCommGroup V] (h2 : ∀ v : V, v + v = 0) (IO : Api.SymIO V) (p : Api.Params)
+    (hops : IO.ops 3 p.m p.len = grpOps V) (s : Api.Session V) (it : IT.St V) (hit : s.it = some it) (hk16 : p.k ≤ 16) (hr24 : p.r ≤ 24)
+    (hH : rows p.k p.r = some s.H) (src : List V) (hs : src.length = p.k)
+    (inv : ITSound.VInv (grpOps V) (fun e => (Api.ldpcEncode (grpOps V) p.k s.H src).getD e 0) it) (ops : List MLSound.DecOp) :
+    ∃ it', (MLSound.runDec IO p (fun e => (Api.ldpcEncode (grpOps V) p.k s.H src).getD e 0) s ops).it = some it' ∧
+      ∀ e v, e < p.k → it'.sym.get e = some v → v = src.getD e 0 := by
+  obtain ⟨h1, h2', h3⟩ := C16_structure p.k p.r hk16 hr24 s.H hH
+  exact C01_ldpc_roundtrip h2 IO p hops s it hit h1 (by intro row hrow; rw [h1]; exact h2' row hrow) h3 src hs inv ops
 
 -- non-vacuity: (k, r) = (6, 5) is accepted with D = 2 rows of L = 3
 example : dims 6 5 = some (2, 3) ∧ rowsOf 6 2 3 = [[0, 1, 2, 6], [3, 4, 5, 7], [0, 3, 8], [1, 4, 9], [2, 5, 10]] := by
